@@ -1912,3 +1912,72 @@ def rule_instantiation_depends_on_itself_only(ctx, rep: Report, rid="P9"):
     rep.units["instantiation_loops_checked"] = n
     if len(inst_classes) < 4:
         raise AnalysisError(f"{rep.prop}/{rid}: only {len(inst_classes)} Instantiated* classes found")
+
+
+def rule_typedef_yields_one_instantiation(ctx, rep: Report, rid="N11"):
+    """Every `typedef Tmpl<args> Name;` yields exactly one further instantiation, built from the template it names, the
+    typedef's arguments and the typedef's name - next to (never instead of, never merged with) the instantiations the
+    template enumerates itself.  Decided by running instantiate_namespace (the analyser's own interpreter; node
+    constructors are recorded, not executed) on a sample namespace: a class template with enumerated lists and two
+    typedefs of it - one spelling a combination the template lists itself -, a function template and a foreign template
+    with a typedef each, and a nested namespace holding another typedef."""
+    from .rules_matlab import SampleObj, _PathEval, _Raised, mini_exec
+    prog = ctx.prog
+    mi = prog.module(f"{TI}/namespace.py")
+    fn = prog.func(f"{TI}/namespace.py", "instantiate_namespace")
+    ps = func_params(fn)
+    loc = f"{mi.rel}:{fn.lineno}"
+
+    def tn(name, *inst):
+        return SampleObj(__kind__="Typename", name=name, instantiations=list(inst), namespaces=[])
+    A, B, C = tn("A"), tn("B"), tn("C")
+    cls_t = SampleObj(__kind__="Class", name="Foo", template=SampleObj(__kind__="Template", typenames=["T"], instantiations=[[A, B]]))
+    cls_p = SampleObj(__kind__="Class", name="Plain", template="")
+    fun_t = SampleObj(__kind__="GlobalFunction", name="twice", template=SampleObj(__kind__="Template", typenames=["T"], instantiations=[[A]]))
+    fwd = SampleObj(__kind__="ForwardDeclaration", name="Ext", template="")
+
+    def td(target_name, new_name, *args):
+        return SampleObj(__kind__="TypedefTemplateInstantiation", typename=tn(target_name, *args), new_name=new_name)
+    td_listed, td_new, td_fun, td_fwd, td_inner = td("Foo", "FooA", A), td("Foo", "FooC", C), td("twice", "twiceA", A), td("Ext", "ExtB", B), td("Foo", "InnerFoo", B)
+    inner = SampleObj(__kind__="Namespace", name="inner", content=[td_inner], parent="")
+    root = SampleObj(__kind__="Namespace", name="", content=[cls_t, td_listed, cls_p, fun_t, td_new, td_fun, fwd, td_fwd, inner], parent="")
+    targets = {}
+    for t_, x_ in ((td_listed, cls_t), (td_new, cls_t), (td_fun, fun_t), (td_fwd, fwd), (td_inner, cls_t)):
+        targets[id(t_)] = x_          # the table may be keyed by the typedef's id or by the typedef itself
+        targets[t_] = x_
+    ctor_names = {q.split(".")[-1] for q in ("InstantiatedClass", "InstantiatedGlobalFunction", "InstantiatedDeclaration")}
+    env = {ps[0]: root}
+    if len(ps) > 1:
+        env[ps[1]] = targets
+    try:
+        mini_exec(fn, env, budget=20000, functions=dict(mi.functions), ctors=ctor_names)
+    except (_PathEval.Unknown, _Raised) as ex:
+        # written with constructs the interpreter does not follow: N2 still decides the typedef branch by structure
+        rep.add(rid, "typedef:instantiate_namespace evaluated on a sample namespace", True, f"not evaluable ({ex}); N2 decides by structure", loc, nontrivial=False)
+        return
+
+    def built(ns):
+        out = []
+        for x in ns["content"]:
+            if isinstance(x, SampleObj) and x.get("__built__"):
+                out.append(x)
+            elif isinstance(x, SampleObj) and x.get("__kind__") == "Namespace":
+                out += built(x)
+        return out
+    made = built(root)
+
+    def parts(x):
+        a = list(x["args"]) + [x["kwargs"][k] for k in x["kwargs"]]
+        return a
+    for t_, target, label in ((td_listed, cls_t, "typedef of a combination the template lists itself"), (td_new, cls_t, "typedef of a new combination"),
+                              (td_fun, fun_t, "typedef of a function template"), (td_fwd, fwd, "typedef of a foreign (forward-declared) template"),
+                              (td_inner, cls_t, "typedef inside a nested namespace")):
+        mine = [x for x in made if any(p is t_["new_name"] or p == t_["new_name"] for p in parts(x))]
+        ok = len(mine) == 1 and any(p is target for p in parts(mine[0])) and any(p is t_["typename"]["instantiations"] or p == t_["typename"]["instantiations"] for p in parts(mine[0]))
+        rep.add(rid, f"typedef:{label}:exactly one instantiation with the typedef's name, template and arguments", ok,
+                f"`typedef {t_['typename']['name']}<..> {t_['new_name']}` yields {len(mine)} instantiation(s) carrying its name"
+                + ("" if len(mine) != 1 else " but not built from the named template / the typedef's arguments") +
+                ": the name the interface file introduces does not exist in the wrappers (or exists twice)", loc)
+    listed = [x for x in made if x["__kind__"] == "InstantiatedClass" and any(p is cls_t for p in parts(x)) and len(parts(x)) == 2]
+    rep.add(rid, "typedef:the template's own combinations are instantiated besides the typedefs", len(listed) == 2,
+            f"{len(listed)} instantiation(s) from the lists of `template<T={{A, B}}> class Foo`, 2 expected", loc, nontrivial=False)
